@@ -129,7 +129,7 @@ CHECKS = {
         design="DESIGN.md §4 C12",
     ),
     "C15": dict(
-        rules="R15.0-R15.3",
+        rules="R15.0-R15.4",
         what="int/float/fixed-width primitive bindings agree with their C signatures and error kinds; every raw C division/modulo IntOp is emitted under a zero(-1)-excluding guard; every Truncate of a possibly out-of-range value is dominated by the two-sided range check; the inline fast path of tagged-int multiplication cannot wrap under its guard (interval arithmetic on the guard's constant bounds, from clang's expression trees)",
         quant="operator x operand type x boundary values",
         technique="cross-language table check against clang's AST; guard-chain and CFG dominance checks in the IR builder",
